@@ -149,4 +149,21 @@ example : Race trBothShared 2 3 := by
   subst h3
   simp at h5
 
+
+/-- Mutual exclusion, the fact the sequential store model (C01, C12, C13) rests
+    on: at no point of a well-formed trace do two different goroutines hold the
+    same lock unless both hold it in shared mode. Hence two per-key cache
+    operations, each of which touches the key's index entry only while holding
+    the key's shard lock exclusively (checked per access site on the regenerated
+    facts, verdict `index-entry-used-outside-the-keys-shard-lock`), never overlap
+    on one key: their effects on that key are those of some sequential order. -/
+theorem mutual_exclusion (tr : Trace) (hwf : wellFormed tr = true) (k t1 t2 l : Nat) (s1 s2 : Bool)
+    (hne : t1 ≠ t2) (h1 : holdsAt tr k t1 l s1 = true) (h2 : holdsAt tr k t2 l s2 = true) :
+    s1 = true ∧ s2 = true := by
+  have hi := Rv.Lemmas.Race.inv_st tr hwf k
+  rw [Rv.Lemmas.Race.holdsAt_iff] at h1 h2
+  exact hi _ _ h1 h2 (by intro h; exact hne (by simpa using congrArg Hold.tid h)) rfl
+
+example : wellFormed [⟨1, .acq 0 false⟩, ⟨1, .access 7 true⟩, ⟨1, .rel 0 false⟩, ⟨2, .acq 0 false⟩] = true := by decide
+
 end Rv.Props.C15
